@@ -197,6 +197,11 @@ func (e *Ext) srcOfValue(v ssa.Value, at ssa.Instruction, names map[ssa.Value]st
 		break
 	}
 	c := e.FI.CtxBefore(at)
+	if bo, ok := v.(*ssa.BinOp); ok && shift == 0 && (bo.Op == token.OR || bo.Op == token.ADD || bo.Op == token.XOR) {
+		if a := e.combineBytes(bo, at, names); a != nil && (narrow == 0 || narrow >= a.Width) {
+			return a
+		}
+	}
 	if call, ok := v.(*ssa.Call); ok && (narrow > 0 || shift > 0) {
 		if kind, w, order := binCall(call); kind == "get" && narrow > 0 && int(shift)+narrow <= w && (narrow < w || shift > 0) {
 			root, off := e.rootBuf(call.Common().Args[1], c)
@@ -223,6 +228,19 @@ func (e *Ext) srcOfValue(v ssa.Value, at ssa.Instruction, names map[ssa.Value]st
 		}
 	case *ssa.UnOp:
 		if x.Op == token.MUL {
+			// [N]byte(data[lo:hi]): the window converted to an array value
+			if stp, ok := x.X.(*ssa.SliceToArrayPointer); ok {
+				if a := e.srcOfValue(stp.X, at, names); a != nil && a.Kind == "bytes" {
+					if arr, isArr := deref(stp.Type()).Underlying().(*types.Array); isArr && elemWidth(arr.Elem()) == 1 {
+						a.Width = int(arr.Len())
+						a.WidthStr = fmt.Sprint(arr.Len())
+						w := lin.K(arr.Len())
+						a.WidthForm = &w
+						return a
+					}
+				}
+				return nil
+			}
 			if ia, ok := x.X.(*ssa.IndexAddr); ok {
 				if _, isField := e.FieldPath(ia); isField {
 					// a byte of a byte-slice FIELD used as an inner buffer is a decode; an element of
@@ -927,4 +945,90 @@ func (e *Ext) tableStore(st *ssa.Store, names map[ssa.Value]string) []*Atom {
 		out = append(out, &a)
 	}
 	return out
+}
+
+// combineBytes: an integer assembled by hand from single bytes of the input,
+// uint16(b[i])<<8 | uint16(b[i+1]) and the like: n terms joined by | (or +, ^),
+// term j being the byte at a known offset shifted left by 8·s_j, the shifts
+// being exactly 0, 8, …, 8(n-1) and the offsets consecutive. Offsets rising
+// with the shift: little-endian; falling: big-endian.
+func (e *Ext) combineBytes(bo *ssa.BinOp, at ssa.Instruction, names map[ssa.Value]string) *Atom {
+	type term struct {
+		a     *Atom
+		shift int64
+	}
+	var terms []term
+	ok := true
+	var flat func(v ssa.Value)
+	flat = func(v ssa.Value) {
+		if !ok {
+			return
+		}
+		if b, isB := v.(*ssa.BinOp); isB && (b.Op == token.OR || b.Op == token.ADD || b.Op == token.XOR) {
+			flat(b.X)
+			flat(b.Y)
+			return
+		}
+		sh := int64(0)
+		for {
+			if cv, isC := v.(*ssa.Convert); isC {
+				v = cv.X
+				continue
+			}
+			if b, isB := v.(*ssa.BinOp); isB && b.Op == token.SHL {
+				if k, isK := constI(b.Y); isK && k >= 0 && k%8 == 0 {
+					sh += k
+					v = b.X
+					continue
+				}
+			}
+			break
+		}
+		if _, isB := v.(*ssa.BinOp); isB {
+			ok = false
+			return
+		}
+		a := e.srcOfValue(v, at, names)
+		if a == nil || a.Kind != "fixed" || a.Width != 1 || a.OffForm == nil {
+			ok = false
+			return
+		}
+		terms = append(terms, term{a, sh})
+	}
+	flat(bo)
+	n := len(terms)
+	if !ok || n < 2 || n > 8 {
+		return nil
+	}
+	byShift := make([]*Atom, n)
+	for _, t := range terms {
+		j := int(t.shift / 8)
+		if j < 0 || j >= n || byShift[j] != nil || t.a.Stream != terms[0].a.Stream {
+			return nil
+		}
+		byShift[j] = t.a
+	}
+	le, be := true, true
+	for j := 1; j < n; j++ {
+		d := byShift[j].OffForm.Sub(*byShift[0].OffForm)
+		k, isK := d.ConstVal()
+		if !isK || !k.IsInt64() {
+			return nil
+		}
+		if k.Int64() != int64(j) {
+			le = false
+		}
+		if k.Int64() != -int64(j) {
+			be = false
+		}
+	}
+	if !le && !be {
+		return nil
+	}
+	first, order := byShift[0], "LE"
+	if be {
+		first, order = byShift[n-1], "BE"
+	}
+	off := *first.OffForm
+	return &Atom{Kind: "fixed", Width: n, Order: order, Stream: first.Stream, Off: e.renderForm(off, names), OffForm: &off, Pos: bo.Pos()}
 }
